@@ -1,0 +1,21 @@
+//go:build !verif
+
+package internal
+
+// Verification hook points. Without the `verif` build tag verifPoint is an
+// empty function that the compiler inlines away, so the call sites cost nothing.
+const (
+	vpBeforeEvent = iota + 1
+	vpExpireRecheck
+	vpBufBeforeTailCAS
+	vpBufBeforePublish
+	vpBufBeforeTokenCAS
+	vpBufDrainSlot
+	vpBufBeforeHeadStore
+	vpBufBeforeFree
+	vpSecEnq
+	vpSecDone
+	vpSFCleanup
+)
+
+func verifPoint(id int) {}
